@@ -22,6 +22,8 @@ type XCase struct {
 	Watchdog   time.Duration
 	Users      []UserSpec
 	Faulty     bool
+	PreMTUC    int
+	PreMTUS    int
 }
 
 // XOut is what a generic case produced.
@@ -42,7 +44,7 @@ func runX(x *XCase) *XOut {
 	if users == nil {
 		users = []UserSpec{{"alice", "alice-secret"}, {"bob", "bob-secret"}}
 	}
-	env, err := NewEnv(EnvCfg{UDP: x.UDP, MTUC: x.MTUC, MTUS: x.MTUS, PatC: x.PatC, PatS: x.PatS, Multiplex: x.Multiplex, Users: users})
+	env, err := NewEnv(EnvCfg{UDP: x.UDP, MTUC: x.MTUC, MTUS: x.MTUS, PatC: x.PatC, PatS: x.PatS, Multiplex: x.Multiplex, Users: users, PreMTUC: x.PreMTUC, PreMTUS: x.PreMTUS})
 	if err != nil {
 		out.Err = err
 		return out
